@@ -187,10 +187,10 @@ def c06_scenarios(ctx):
             continue        # one syscall per byte: filling the socket buffers takes minutes
         sid += 1
         # the relay's socket send buffer autotunes up to tcp_wmem[2] (4 MB) while the endpoint reads: the lines handed
-        # during the stall must exceed that plus io buffer plus conn.In (1000-byte lines; 3/4 of `lines` is the fill budget)
+        # during the stall must exceed that plus io buffer plus conn.In (1000-byte lines; 3/4 of `lines` is the budget for filling and pausing)
         ll = 1000
         scns.append(dict(id=sid, kind="stall", route="all", connbuf=cb, iobuf=iob, flush_ms=fl,
-                         lines=(4 * (7_000_000 // ll + iob // ll + cb + 2100)) // 3, linelen=ll,
+                         lines=2 * (7_000_000 // ll + iob // ll + cb + 2100), linelen=ll,
                          rcvbuf=rng.choice([2048, 8192]), close_after=0, stall_ms=max(400, 12 * fl), switches=[]))
         # ... and the same with a close instead of the resume: the endpoint closes while the writer sits in a blocked write
         # (latency bound only: what was queued for the closed connection is legitimately gone)
